@@ -202,6 +202,10 @@ func k8sSites() []Site {
 			Leaves: map[string]string{"p.Status.PodIP": "ip", "\"\"": "0"}},
 		{Name: "rollingSkip", File: k8sr, Func: "ReplicasManager.Replicas", Sel: "if:1:4", Params: "(replicas updated : Int)", Ret: "Bool",
 			Leaves: map[string]string{"s.Status.Replicas": "replicas", "s.Status.UpdatedReplicas": "updated"}},
+		{Name: "stampSet", File: k8sr, Func: "ReplicasManager.Replicas", Sel: "if:2:4", Params: "(ready replicas : Int) (stampNil : Bool)", Ret: "Bool",
+			Leaves: map[string]string{"s.Status.ReadyReplicas": "ready", "s.Status.Replicas": "replicas", "g.stsUpdatedTime[s.Name] == nil": "stampNil"}},
+		{Name: "stillWaiting", File: k8sr, Func: "ReplicasManager.Replicas", Sel: "if:3:4", Params: "(ready replicas elapsed : Int)", Ret: "Bool",
+			Leaves: map[string]string{"s.Status.ReadyReplicas": "ready", "s.Status.Replicas": "replicas", "time.Now().Sub(*t)": "elapsed", "time.Minute * 2": "120", "time.Minute*2": "120"}},
 	}
 }
 
